@@ -1422,7 +1422,7 @@ func checkFiter(c fiterCase, lines, impls, outs []string) {
 		}
 		want := specScript(c, pass)
 		got := impls[len(impls)-1-len(c.Ops) : len(impls)-1]
-		// open finding F-C05-902: without a RANGE the filter's default range starts at -6795364578871345152, not at the int64
+		// finding F-C05-902 (fixed in /repo d9d7013; a recurrence is tagged): without a RANGE the filter's default range starts at -6795364578871345152, not at the int64
 		// minimum. The failure belongs to it iff there is no RANGE, some event is stamped below that bound, and the whole script
 		// behaves exactly as the reference does once those events are taken out of the passing set.
 		finding := ""
@@ -1530,7 +1530,7 @@ func sectionFiter(rng *vh.Rng) {
 		}
 		cases = append(cases, c)
 	}
-	// fixed scripts for the open finding F-C05-902: events stamped below / at / above the default range's lower bound, no RANGE
+	// fixed scripts for the finding F-C05-902 (fixed in /repo d9d7013; a recurrence is tagged): events stamped below / at / above the default range's lower bound, no RANGE
 	cases = append(cases, fiterEarlyCases()...)
 	var all []string
 	type span struct{ lo, hi int }
